@@ -59,16 +59,83 @@ PSEUDO_SIMPLE = {   # name -> (operand count, expansion)
 }
 
 
+class Style:
+    """documented spelling freedoms, chosen independently per line / operand from a seeded generator (C13)"""
+
+    def __init__(self, rnd=None, fixed=None):
+        self.rnd = rnd
+        self.fixed = fixed or {}
+
+    def pick(self, what, options):
+        if what in self.fixed:
+            return self.fixed[what]
+        if self.rnd is None:
+            return options[0]
+        return self.rnd.choice(options)
+
+
+CURRENT_STYLE = None
+
+
 class Prog:
-    def __init__(self, tag=''):
+    def __init__(self, tag='', style=None):
         self.recs = []
         self.tag = tag
+        self.style = style if style is not None else CURRENT_STYLE
 
     def add(self, text, **rec):
+        st = self.style
+        if st is not None and rec.get('kind') != 'comment':
+            # blank lines / whole-line comments before the item
+            for _ in range(st.pick('blank', [0, 0, 1, 2])):
+                self.recs.append({'text': st.pick('blankline', ['', '   ', '# a comment', '    # indented comment', '\t']), 'kind': 'comment',
+                                  'ln': len(self.recs) + 1})
+            if rec.get('kind') not in ('string',):
+                text = st.pick('indent', ['', '  ', '    ', '\t', ' \t ']) + text
+                text = text + st.pick('trail', ['', '', ' # trailing', '#x', '   ', '\t# t'])
+            else:
+                text = st.pick('indent', ['', '  ', '\t']) + text
         rec['text'] = text
         rec['ln'] = len(self.recs) + 1
         self.recs.append(rec)
         return self
+
+    # style-aware pieces
+    def r(self, n):
+        st = self.style
+        how = st.pick('reg', ['x', 'abi', 'num']) if st else 'x'
+        return _regtext(n, how)
+
+    def i(self, v):
+        st = self.style
+        how = st.pick('int', ['dec', 'hex', 'bin']) if st else 'dec'
+        if how == 'hex':
+            return ('-' if v < 0 else '') + hex(abs(v))
+        if how == 'bin':
+            return ('-' if v < 0 else '') + bin(abs(v))
+        return str(v)
+
+    def v(self, v):
+        if isinstance(v, int):
+            return self.i(v)
+        k = v[0]
+        if k == 'position':
+            return '%%position(%s, %s)' % (v[1], self.v(v[2]))
+        if k in ('hi', 'lo'):
+            return '%%%s(%s)' % (k, self.v(v[1]))
+        if k in ('add', 'sub'):
+            return '%s %s %s' % (self.v(v[1]), '+' if k == 'add' else '-', self.v(v[2]))
+        return vtext(v)
+
+    def j(self, m, parts):
+        st = self.style
+        if not parts:
+            return m
+        seps = [st.pick('sep', [', ', ' ', ',', ' , ', '\t', ',  ']) if st else ', ' for _ in parts[1:]]
+        out = parts[0]
+        for sp, x in zip(seps, parts[1:]):
+            out += sp + x
+        return m + (st.pick('msep', [' ', '  ', '\t']) if st else ' ') + out
 
     def source(self):
         return '\n'.join(r['text'] for r in self.recs) + '\n'
@@ -78,7 +145,7 @@ class Prog:
         return self.add('%s:' % name, kind='label', name=name)
 
     def const(self, name, value):
-        return self.add('%s = %d' % (name, value), kind='const', name=name, value=value)
+        return self.add('%s = %s' % (name, self.i(value)), kind='const', name=name, value=value)
 
     def comment(self, text=''):
         return self.add(text, kind='comment')
@@ -88,29 +155,43 @@ class Prog:
         parts = []
         for r, v in zip(roles, ops):
             if r in ('rd', 'rs1', 'rs2'):
-                parts.append(reg(v))
+                parts.append(self.r(v))
+            elif r in ('shamt', 'uimm'):
+                parts.append(str(v))
             else:
-                parts.append(vtext(v))
+                parts.append(self.v(v))
         literal = all(isinstance(v, int) for v in ops)
-        return self.add(text or ('%s %s' % (m, ', '.join(parts))).strip(), kind='insn', m=m, ops=tuple(ops), literal=literal)
+        fmt = rv32.TABLE[m][0]
+        single = len(ops) == 3 and (isinstance(ops[2], int) or ops[2][0] in ('label', 'const'))      # one-token offsets only
+        if text is None and self.style is not None and single and m in ('jalr', 'lb', 'lh', 'lw', 'lbu', 'lhu', 'sb', 'sh', 'sw') \
+                and self.style.pick('mem', ['plain', 'paren']) == 'paren':
+            # imm(reg) spelling: loads/jalr  rd, imm(rs1) ; stores  rs2, imm(rs1)
+            if fmt == 'S':
+                text = self.j(m, [parts[1], '%s(%s)' % (parts[2], parts[0])])
+            else:
+                text = self.j(m, [parts[0], '%s(%s)' % (parts[2], parts[1])])
+        return self.add(text or self.j(m, parts), kind='insn', m=m, ops=tuple(ops), literal=literal)
 
     def cinsn(self, m, *ops):
         parts = []
         for k, v in zip(rvc.kinds(m), ops):
-            parts.append(reg(v) if k in ('r', "r'") else vtext(v))
-        return self.add(('%s %s' % (m, ', '.join(parts))).strip(), kind='cinsn', m=m, ops=tuple(ops), c_source=True)
+            parts.append(self.r(v) if k in ('r', "r'") else self.v(v))
+        text = None
+        if self.style is not None and m in ('c.lw', 'c.sw') and self.style.pick('mem', ['plain', 'paren']) == 'paren':
+            text = self.j(m, [parts[1], '%s(%s)' % (parts[2], parts[0])]) if m == 'c.sw' else self.j(m, [parts[0], '%s(%s)' % (parts[2], parts[1])])
+        return self.add(text or self.j(m, parts), kind='cinsn', m=m, ops=tuple(ops), c_source=True)
 
     def branch(self, m, rs1, rs2, target):
-        return self.add('%s %s, %s, %s' % (m, reg(rs1), reg(rs2), target), kind='transfer', target=target,
+        return self.add(self.j(m, [self.r(rs1), self.r(rs2), target]), kind='transfer', target=target,
                         cond=(m, rs1, rs2), link=())
 
     def pbranch(self, name, target, *rs):
         cond = (PSEUDO_BRANCH[name](*rs) if name in PSEUDO_BRANCH else PSEUDO_BRANCH2[name](*rs))
-        return self.add('%s %s, %s' % (name, ', '.join(reg(r) for r in rs), target), kind='transfer', target=target,
+        return self.add(self.j(name, [self.r(r) for r in rs] + [target]), kind='transfer', target=target,
                         cond=cond, link=())
 
     def jal(self, rd, target):
-        return self.add('jal %s, %s' % (reg(rd), target), kind='transfer', target=target, cond=None, link=(rd,) if rd else ())
+        return self.add(self.j('jal', [self.r(rd), target]), kind='transfer', target=target, cond=None, link=(rd,) if rd else ())
 
     def jump(self, name, target):
         # j / jal (pseudo) / call / tail
@@ -119,26 +200,26 @@ class Prog:
             rec['link'] = ()
         elif name in ('jal', 'call'):
             rec['link'] = (1,)
-        return self.add('%s %s' % (name, target), **rec)
+        return self.add(self.j(name, [target]), **rec)
 
     def li(self, rd, value):
-        return self.add('li %s, %s' % (reg(rd), vtext(value)), kind='li', rd=rd, value=value)
+        return self.add(self.j('li', [self.r(rd), self.v(value)]), kind='li', rd=rd, value=value)
 
     def pseudo(self, name, *regs):
         n, f = PSEUDO_SIMPLE[name]
-        return self.add(('%s %s' % (name, ', '.join(reg(r) for r in regs))).strip(), kind='expand', expect=f(*regs))
+        return self.add(self.j(name, [self.r(r) for r in regs]), kind='expand', expect=f(*regs))
 
     def data(self, d, *values):
-        return self.add('%s %s' % (d, ' '.join(vtext(v) for v in values)), kind='data', d=d, values=list(values))
+        return self.add(self.j(d, [self.v(v) for v in values]), kind='data', d=d, values=list(values))
 
     def pack(self, fmt, value):
-        return self.add('pack %s, %s' % (fmt, vtext(value)), kind='pack', fmt=fmt, value=value)
+        return self.add(self.j('pack', [fmt, self.v(value)]), kind='pack', fmt=fmt, value=value)
 
     def string(self, text):
         return self.add('string %s' % text, kind='string', bytes=text.encode('utf-8'))
 
     def align(self, n):
-        return self.add('align %d' % n, kind='align', n=n)
+        return self.add(self.j('align', [self.i(n)]), kind='align', n=n)
 
     def filler(self, nbytes):
         """nbytes of data in one line"""
